@@ -574,9 +574,9 @@ def run(ctx, replay=None):
                                              'trusted_base': common.TRUSTED_BASE, 'explanation': 'build failed'}, [])
         return
     po = common.proof_obligations(ctx.prop)
-    ck = common.coqchk(ctx.prop) if ctx.tier == 'thorough' else None
-    if ck is not None and not ck['ok']:
-        path = common.write_replay(ctx, 'coqchk', {'kind': 'coqchk-failed', 'summary': ck['summary']})
+    chk_res = common.coqchk(ctx.prop) if ctx.tier == 'thorough' else None
+    if chk_res is not None and not chk_res['ok']:
+        path = common.write_replay(ctx, 'coqchk', {'kind': 'coqchk-failed', 'summary': chk_res['summary']})
         common.violation(ctx, path, found_input=False)
     bad = common.hygiene()
     n_obl = len(po['theorems'])
@@ -747,7 +747,7 @@ def run(ctx, replay=None):
         'checker_cmd': 'coqc %s %s  (after ./build.sh)' % (' '.join(common.COQFLAGS), po['file']),
         'trusted_base': common.TRUSTED_BASE + [
             'Print Assumptions: ' + '; '.join('%s: %s' % (t, po['assumptions'].get(t, 'NOT PRINTED')) for t in po['theorems'])],
-        'coqchk': ({'axioms': ck['axioms'], 'ok': ck['ok']} if ck else 'thorough tier only'), 'theorems': po['theorems'], 'hygiene_hits': bad,
+        'coqchk': ({'axioms': chk_res['axioms'], 'ok': chk_res['ok']} if chk_res else 'thorough tier only'), 'theorems': po['theorems'], 'hygiene_hits': bad,
         'evaluations': len(progs), 'distinct_nontrivial': distinct,
         'rule': 'programs drawn by harness/gen.py from profiles %s with seed %d, solved by the real library (solve + up to 2 find_another_solution); '
                 'non-trivial = the library returned at least one solution; distinct by program text' % (cfg['profiles'], ctx.seed),
